@@ -294,7 +294,7 @@ class Scenario:
 
 
 def gen_scenario(rng, max_reqs=3, max_pairs=3, small=False, malformed=False, mixed_roles=False, faults=False,
-                 one_comm=False, per_link=False, two_remotes=False):
+                 one_comm=False, per_link=False, two_remotes=False, two_apps=False):
     """Well-formed scenarios (malformed=False) never make the executor raise: subroutines of one
     application own disjoint virtual qubit ids, a request's qubits are freed before a later request of the
     same subroutine reuses them, response types match the request type, result arrays are long enough.
@@ -315,7 +315,13 @@ def gen_scenario(rng, max_reqs=3, max_pairs=3, small=False, malformed=False, mix
                        max(2, max_reqs) if (mixed_roles or two_remotes) else max_reqs)
     nsubs = 1 if small else rng.choice([1, 1, 2, 2, 3])
     nsubs = min(nsubs, nreq)
+    if two_apps:
+        # application life-cycle scenarios: two applications on the node, at least one subroutine each
+        napps, nreq = 2, max(nreq, 2)
+        nsubs = max(2, min(nsubs, nreq))
     sub_app = [rng.randrange(napps) for _ in range(nsubs)]
+    if two_apps:
+        sub_app[0], sub_app[1] = 0, 1
     for a in range(napps):
         k = max(1, sub_app.count(a))
         sc.apps[a] = rng.choice([2, 3, 4]) if k == 1 else rng.choice([2, 3]) * k
@@ -517,7 +523,7 @@ def _final_wait(sp, req, rng, free=None):
 # ------------------------------------------------------------------ schedules
 
 
-def random_schedule(sc, rng, early=0):
+def random_schedule(sc, rng, early=0, stops=False):
     """tokens: ("s", sub index) / ("d", response index) / ("p",). Subroutines of one application are
     switched only while the running one sits in a wait (or has ended / not started)."""
     nsteps = {i: len(sp.lines) + 1 for i, sp in enumerate(sc.subs)}    # +1: the start step
@@ -540,6 +546,13 @@ def random_schedule(sc, rng, early=0):
             toks.append(("s", rng.randrange(len(sc.subs))))
     toks += [("d", i) for i in pending_d]
     toks += [("p",)] + [("s", i) for i in range(len(sc.subs)) for _ in range(6)]
+    if stops:
+        # application life cycle: stop_application at arbitrary moments (enabled, in well-formed scenarios,
+        # once every subroutine of the application has ended), also while responses are parked for others
+        for app in sc.apps:
+            for _ in range(4):
+                toks.insert(rng.randrange(len(toks) // 3, len(toks) + 1), ("x", app))
+        toks += [("p",)] + [("s", i) for i in range(len(sc.subs)) for _ in range(3)]
     return toks
 
 
@@ -975,6 +988,10 @@ class Replayer:
                         ex.network_stack.fail_next = act["where"]
                         act = {"a": "rejected"}
                         rejected = True
+                    if act["a"] == "nop" and sp.app not in ex._qubit_unit_modules:
+                        # a `set` of a stopped application raises (KeyError on its register file); for the
+                        # bookkeeping model: any instruction that needs the application
+                        act = {"a": "wait", "kind": "single", "addr": 0, "lo": 0, "hi": 0}
                     if act["a"] != "nop":
                         act["sub"] = sid[i]
                     acts.append(act)
@@ -1012,6 +1029,18 @@ class Replayer:
                         if acts[-1]["a"] != "endsub":
                             acts.append({"a": "endsub", "sub": sid[i]})
                         current[sp.app] = None
+            elif tok[0] == "x":
+                app = tok[1]
+                if app not in ex._qubit_unit_modules:
+                    return
+                if not sc.malformed and any(sp.app == app and state.get(i) != "done"
+                                            for i, sp in enumerate(sc.subs)):
+                    return      # well-formed: an application is stopped after its subroutines have ended
+                acts.append({"a": "stopapp", "app": app})
+                cacts.append({"a": "stop", "app": app})
+                out = ex.stop_application(app)
+                if out is not None:
+                    list(out)
             elif tok[0] == "d":
                 r = sc.resps[tok[1]]
                 if r.uid in self.uid2idx:
